@@ -1,17 +1,19 @@
 // Allocation table for libcoap's typed allocator (link with --wrap=coap_malloc_type,--wrap=coap_realloc_type,--wrap=coap_free_type).
 // Records every live object with its type, can make the k-th request fail, and notices frees of objects that are already free.
 #include "sim.h"
+#include <sanitizer/common_interface_defs.h>
 
 extern "C" {
 void *__real_coap_malloc_type(coap_memory_tag_t type, size_t size);
 void *__real_coap_realloc_type(coap_memory_tag_t type, void *p, size_t size);
 void __real_coap_free_type(coap_memory_tag_t type, void *p);
 
-static bool fail_now() {
+static bool fail_now(void *ra) {
   uint64_t idx = sim::A.requests++;
   if ((int64_t)idx == sim::A.fail_at || (int64_t)idx == sim::A.fail_at2) {
     sim::A.failed++;
-    sim::A.fail_site = __builtin_return_address(0);
+    sim::A.fail_site = ra;
+    if (getenv("SIM_ALLOC_TRACE")) { char b[200]; __sanitizer_symbolize_pc(sim::A.fail_site, "%f %s:%l", b, sizeof b); fprintf(stderr, "FAILSITE %s\n", b); if (getenv("SIM_ALLOC_TRACE")[0] == '2') __sanitizer_print_stack_trace(); }
     return true;
   }
   return false;
@@ -19,7 +21,7 @@ static bool fail_now() {
 
 void *__wrap_coap_malloc_type(coap_memory_tag_t type, size_t size) {
   if (size > sim::A.largest) sim::A.largest = size;
-  if (fail_now()) return nullptr;
+  if (fail_now(__builtin_return_address(0))) return nullptr;
   void *p = __real_coap_malloc_type(type, size);
   if (p && sim::A.enabled) { sim::A.live[p] = {(int)type, size}; sim::A.freed.erase(p); }
   return p;
@@ -27,7 +29,7 @@ void *__wrap_coap_malloc_type(coap_memory_tag_t type, size_t size) {
 
 void *__wrap_coap_realloc_type(coap_memory_tag_t type, void *p, size_t size) {
   if (size > sim::A.largest) sim::A.largest = size;
-  if (fail_now()) return nullptr;  // realloc failure leaves the old object alive
+  if (fail_now(__builtin_return_address(0))) return nullptr;  // realloc failure leaves the old object alive
   void *q = __real_coap_realloc_type(type, p, size);
   if (sim::A.enabled) {
     if (q) {
